@@ -10,6 +10,7 @@ mod c04;
 mod c18;
 mod c17;
 mod c13;
+mod c14;
 mod c06;
 mod c03;
 mod c01;
@@ -20,6 +21,7 @@ mod c07;
 mod c10;
 mod c16;
 mod c12;
+mod c09;
 
 fn main() {
 	let args = util::parse_args();
@@ -32,6 +34,7 @@ fn main() {
 		"C18" => c18::run(&args),
 		"C17" => c17::run(&args),
 		"C13" => c13::run(&args),
+		"C14" => c14::run(&args),
 		"C06" => c06::run(&args),
 		"C03" => c03::run(&args),
 		"C01" => c01::run(&args),
@@ -42,6 +45,7 @@ fn main() {
 		"C10" => c10::run(&args),
 		"C16" => c16::run(&args),
 		"C12" => c12::run(&args),
+		"C09" => c09::run(&args),
 		p => {
 			eprintln!("unknown property {p}");
 			std::process::exit(2);
